@@ -32,6 +32,7 @@ type Anno struct {
 	Feats   []Feat `json:"feats"`
 	Unsorted bool  `json:"features_not_in_ascending_order,omitempty"`
 	MaskedInCDS bool `json:"reference_masked_inside_cds,omitempty"`
+	TwoProducts bool `json:"two_products_of_one_gene,omitempty"`
 }
 
 // codingPositions: 1-based reference positions in translation order, after codon_start trimming.
@@ -279,6 +280,7 @@ type annoGenOpts struct {
 	allowUnnamed   bool // GFF only
 	codonAligned   bool // segment boundaries on codon boundaries (GFF dialect i)
 	iupacOutside   bool
+	twoProducts    bool // C14 only: a second, differently spliced product of one gene under the same name (as ORF1a / ORF1ab)
 }
 
 func isStop(c string) bool { return c == "TAA" || c == "TAG" || c == "TGA" }
@@ -457,6 +459,32 @@ func genAnno(t *rapid.T, o annoGenOpts) Anno {
 			feats[i].Name = fmt.Sprintf("%s_%d", feats[i].Name, seen[feats[i].Name])
 		}
 	}
+	// two products of one gene (the ORF1a / ORF1ab arrangement): B starts where A starts, in A's frame, leaves A before A's stop
+	// codon and continues downstream of A; both carry A's name. Only where the oracle is differential (C14).
+	if o.twoProducts && rapid.IntRange(0, 3).Draw(t, "twoProducts") == 0 {
+		for ai, A := range feats {
+			nA := A.nCodons()
+			if A.Name == "" || A.Strand < 0 || len(A.Segs) != 1 || A.CodonStart != 1 || nA < 3 || A.GFFType != "CDS" {
+				continue
+			}
+			s0, e0 := A.Segs[0].Start, A.Segs[0].End
+			m := rapid.IntRange(1, nA-2).Draw(t, "sharedCodons")
+			n2 := rapid.IntRange(1, 4).Draw(t, "downstreamCodons")
+			y := e0 + 1 + rapid.IntRange(0, 6).Draw(t, "downstreamGap")
+			z := y + 3*n2 - 1
+			if z > L {
+				break
+			}
+			B := Feat{Name: A.Name, Strand: 1, CodonStart: 1, GFFType: "CDS", Segs: []Seg{{s0, s0 + 3*m - 1}, {y, z}}}
+			trial := append(append([]Feat{}, feats[:ai+1]...), append([]Feat{B}, feats[ai+1:]...)...)
+			r2 := append([]byte(nil), ref...)
+			if repairReference(r2, trial) {
+				feats, ref = trial, r2
+				a.TwoProducts = true
+			}
+			break
+		}
+	}
 	// IUPAC codes outside every feature
 	if o.iupacOutside && rapid.IntRange(0, 4).Draw(t, "refIupac") == 0 {
 		inFeat := make([]bool, L+1)
@@ -516,6 +544,7 @@ func labelAnno(a Anno, o *Obs) {
 	for i, f := range a.Feats {
 		o.LabelIf(a.Unsorted, "feat:file-order-not-ascending")
 		o.LabelIf(a.MaskedInCDS, "feat:reference-N-inside-cds")
+		o.LabelIf(a.TwoProducts, "feat:two-products-of-one-gene")
 		o.LabelIf(f.Strand < 0, "feat:reverse")
 		o.LabelIf(len(f.Segs) > 1, "feat:joined")
 		o.LabelIf(f.Strand < 0 && len(f.Segs) > 1, "feat:reverse-joined")
